@@ -134,6 +134,8 @@ SCALAR_OF = {"Int64": "Int", "Uint64": "Int", "Float64": "Float", "String": "Str
 
 
 def valid(ty, v):
+    if v[0] == "Float64:inf":
+        return False                      # NaN / infinities are values of no type
     if v[0] == "Null":
         return ty.nullable
     if v[0] == "List":
@@ -142,6 +144,8 @@ def valid(ty, v):
 
 
 def mk_value(v):
+    if v[0] == "Float64:inf":
+        return A.Enum(FV, "Float64", [A.Sym("inf", rank=9, ty="Float64", props={"fclass": "inf"})])
     if v[0] == "Null":
         return A.Enum(FV, "Null")
     if v[0] == "List":
@@ -150,7 +154,7 @@ def mk_value(v):
 
 
 def all_values():
-    sc = [("Null",), ("Int64",), ("Uint64",), ("Float64",), ("String",), ("Boolean",)]
+    sc = [("Null",), ("Int64",), ("Uint64",), ("Float64",), ("String",), ("Boolean",), ("Float64:inf",)]
     l1 = [("List", ())] + [("List", (x,)) for x in sc] + [("List", (("Int64",), ("Null",))), ("List", (("Int64",), ("String",))),
                                                           ("List", (("String",), ("String",)))]
     l2 = [("List", (x,)) for x in l1] + [("List", (("List", (("Int64",),)), ("Null",))), ("List", (("List", ()), ("Int64",)))]
